@@ -85,7 +85,12 @@ def build() -> dict:
                 "hasRange": False, "lo": sm(0), "hi": sm(0), "sentinelInRange": False,
                 "resNum": 1, "resDen": 1, "zeroOk": False,
                 "lenField": f.get("BitLengthField", 0),      # order of the field that carries this field's bit length
+                # INDIRECT_LOOKUP: table and position of the companion field whose code is the first half of the key
+                "indirect": f.get("LookupIndirectEnumeration", ""), "indOff": -1, "indLen": 0,
             }
+            if rec["indirect"]:
+                comp = next(x for x in p["Fields"] if x["Order"] == f["LookupIndirectEnumerationFieldOrder"])
+                rec["indOff"], rec["indLen"] = comp.get("BitOffset", -1), comp.get("BitLength", 0)
             if kind == "float":
                 rec["zeroOk"] = frac(f.get("RangeMin", 0)) <= 0 <= frac(f.get("RangeMax", 0))
             if kind in ("num", "time", "date") and "RangeMin" in f and has_len:
@@ -119,12 +124,14 @@ def build() -> dict:
                for e in raw["LookupEnumerations"]}
     bitlookups = {e["Name"]: {str(v["Bit"]): v["Name"] for v in e["EnumBitValues"]}
                   for e in raw["LookupBitEnumerations"]}
+    indirect = {e["Name"]: {f'{v["Value1"]}_{v["Value2"]}': v["Name"] for v in e["EnumValues"]}
+                for e in raw["LookupIndirectEnumerations"]}
     by_id = {d["id"]: d["idx"] for d in defs}
     by_pgn: dict[str, list[int]] = {}
     for d in defs:
         by_pgn.setdefault(str(d["pgn"]), []).append(d["idx"])
     assert len(by_id) == len(defs), "definition ids are not unique"
-    return {"defs": defs, "lookups": lookups, "bitlookups": bitlookups, "byId": by_id, "byPgn": by_pgn}
+    return {"defs": defs, "lookups": lookups, "bitlookups": bitlookups, "indirect": indirect, "byId": by_id, "byPgn": by_pgn}
 
 
 def write(path: Path) -> dict:
